@@ -144,6 +144,12 @@ func main() {
 		big := map[bool]string{false: "3000", true: "6000"}[thorough]
 		jobs = append(jobs, job{"burst", []string{"-seed", sd, "-mode", "small", "-n", map[bool]string{false: "6000", true: "30000"}[thorough]}},
 			job{"burst", []string{"-seed", sd, "-mode", "64k", "-n", big}})
+		// concurrent first send: time-boxed; thorough: two independent processes
+		fsBudget := map[bool]string{false: "8", true: "40"}[thorough]
+		jobs = append(jobs, job{"firstsend", []string{"-seed", sd, "-n", fsBudget}})
+		if thorough {
+			jobs = append(jobs, job{"firstsend", []string{"-seed", fmt.Sprint(*seed + 1), "-n", fsBudget}})
+		}
 		modes := []string{"down", "stalled", "garbling"}
 		if *sel == "c16" {
 			// the honest connections and the scripted faulty peer's handshakes, interleaved
@@ -182,6 +188,8 @@ func main() {
 			pl = 65536
 		}
 		scenarioBurst(*seed, *mode, *count, pl)
+	case "child-firstsend":
+		scenarioFirstSend(*seed, time.Duration(*count)*time.Second, 1000000)
 	case "child-stall10":
 		scenarioStall10()
 	default:
